@@ -23,7 +23,7 @@ ASSUMPTIONS = ["the independent model vf/model/{blssig,h2c,bls12381}.py and its 
 ENGINE = "hypothesis"
 TECHNIQUE = ("differential property-based testing (Hypothesis) against an independent implementation of the IETF draft anchored by published vectors; cross-suite call sequences")
 _REQ = ["cross_suite_sequence", "sign:basic", "sign:aug", "sign:pop", "pop_prove", "aggregate:n>=2", "anchor:eth_sig", "anchor:eth_agg",
-        "anchor:eth_pk", "sign:sk>=200b", "sign:msg=empty", "sign:msg=56-64", "aggregate:non_subgroup", "aggregate:prefix_sums_to_identity"]
+        "anchor:eth_pk", "sign:sk>=200b", "sign:msg=empty", "sign:msg=56-64", "aggregate:non_subgroup", "aggregate:prefix_sums_to_identity", "aggregate:result_y_im=0"]
 REQUIRED_LABELS = {"quick": _REQ, "thorough": _REQ}
 
 
@@ -130,6 +130,9 @@ def o_aggregate(ctx, case):
         ctx.label("aggregate:prefix_sums_to_identity")
     if len(pts) == 1 or (len(pts) > 1 and all(p is None for p in pts[1:])):
         ctx.label("aggregate:single_point_reencoded")
+    tot = blssig.aggregate_points(pts)
+    if tot is not None and tot[1][1] == 0:
+        ctx.label("aggregate:result_y_im=0")
     ctx.sample(case, "aggregate")
 
 
@@ -159,7 +162,7 @@ def s_aggregate():
                 sigs.append(B.signature_bytes(B.g2_mul(acc, -1)))          # minus the running sum
             elif kind == 6:
                 # an on-curve point whose y is purely real or purely imaginary (sign taken from y_re)
-                zc, c = None, 1 + a
+                zc, c = None, 1 + (7 * a + 3 * b) % 40
                 while zc is None:
                     zc, c = bc.g2_zero_component(c), c + 1
                 pt = zc[0] if b % 2 else B.g2_mul(zc[0], -1)
@@ -208,11 +211,14 @@ def t_aggregate(ctx, shard, nshards, n):
     for j, agg in sorted(vectors.ETH_AGGS.items()):
         ex.append({"suite": "pop", "sigs": [hx(vectors.ETH_SIGS[(i, j)]) for i in range(3)], "expect": hx(agg)})
     ex.append({"suite": "basic", "sigs": [hx(B.signature_bytes(None))]})
-    for c in (1, 2, 3, 5, 8):
+    seen = {"y_im=0": 0, "y_re=0": 0}
+    for c in range(1, 60):
         zc = bc.g2_zero_component(c)
-        if zc is not None:
+        if zc is not None and seen[zc[1]] < 2:            # two points of each kind, each with both signs
+            seen[zc[1]] += 1
             for pt in (zc[0], B.g2_mul(zc[0], -1)):
                 ex.append({"suite": "aug", "sigs": [hx(B.signature_bytes(pt))]})
+                ex.append({"suite": "pop", "sigs": [hx(B.signature_bytes(pt)), hx(B.signature_bytes(None))]})
     ex.append({"suite": "basic", "sigs": [hx(B.signature_bytes(B.G2)), hx(B.signature_bytes(B.g2_mul(B.G2, -1)))]})
     drive(ctx, f"agg{shard}", s_aggregate(), lambda c: o_aggregate(ctx, c), n, ex[shard::nshards], shrink=False)
 
